@@ -306,3 +306,95 @@ def make_string_getter(fn):
 
 for _fn in ('gm2calc_mssmnofv_get_problems', 'gm2calc_mssmnofv_get_warnings'):
     make_string_getter(_fn)
+
+# ------------------------------------------------------------------------------------------------ THDM handles: allocation contract
+NEW_REPLAY = r'''
+#include "gm2calc/THDM.h"
+#include "gm2calc/SM.h"
+#include <cstdio>
+// documented: "If an error occurs, the model pointer will be set to 0".  History: the handle variable still holds a stale (non-null) value when a construction fails.
+int main() {
+   int bad = 0;
+   gm2calc_SM sm; gm2calc_sm_set_to_default(&sm);
+   gm2calc_THDM_config cfg; gm2calc_thdm_config_set_to_default(&cfg);
+   int dummy = 0;
+   {
+      gm2calc_THDM_mass_basis b = {}; b.yukawa_type = gm2calc_THDM_type_2; b.mh = 125; b.mH = 400; b.mA = 420; b.mHp = 440; b.sin_beta_minus_alpha = 0.995; b.tan_beta = -1; b.m122 = 40000;
+      gm2calc_THDM* h = reinterpret_cast<gm2calc_THDM*>(&dummy);      // stale non-null handle (never dereferenced here)
+      const gm2calc_error e = gm2calc_thdm_new_with_mass_basis(&h, &b, &sm, &cfg);
+      if (e == gm2calc_NoError) std::printf("mass basis with tan(beta) = -1 was accepted\n");
+      else if (h != nullptr) { bad++; std::printf("gm2calc_thdm_new_with_mass_basis failed with error %d but left the handle non-null\n", int(e)); }
+   }
+   {
+      gm2calc_THDM_gauge_basis b = {}; b.yukawa_type = gm2calc_THDM_type_2; b.tan_beta = -1; b.m122 = 40000; b.lambda[0] = 0.7; b.lambda[1] = 0.6; b.lambda[2] = 0.5; b.lambda[3] = 0.4; b.lambda[4] = 0.3;
+      gm2calc_THDM* h = reinterpret_cast<gm2calc_THDM*>(&dummy);
+      const gm2calc_error e = gm2calc_thdm_new_with_gauge_basis(&h, &b, &sm, &cfg);
+      if (e == gm2calc_NoError) std::printf("gauge basis with tan(beta) = -1 was accepted\n");
+      else if (h != nullptr) { bad++; std::printf("gm2calc_thdm_new_with_gauge_basis failed with error %d but left the handle non-null\n", int(e)); }
+   }
+   std::printf("%d failed constructions left a dangling handle\n", bad);
+   return bad ? 1 : 0;
+}
+'''
+
+def new_replay(model, wd):
+    from gm2v import native
+    import subprocess
+    exe = native.build_against_library(wd, NEW_REPLAY)
+    r = subprocess.run([exe], capture_output=True, text=True, timeout=120)
+    return r.returncode == 1, r.stdout.strip()[-1200:]
+
+@obligation('C17.thdm_new.handle_contract', fns=[(TC, 'gm2calc_thdm_new_with_gauge_basis'), (TC, 'gm2calc_thdm_new_with_mass_basis')], replay=new_replay)
+def _(ctx):
+    """ensures for both constructors of the C interface, for EVERY previous value of the caller's handle variable: the C++ constructor throws EInvalidInput /
+    EPhysicalProblem / anything else ==> the function returns gm2calc_InvalidInput / gm2calc_PhysicalProblem / gm2calc_UnknownError AND *model == 0 (documented:
+    "If an error occurs, the model pointer will be set to 0" -- otherwise a stale handle is freed twice); it succeeds ==> gm2calc_NoError and *model is the newly
+    allocated object; model == 0 ==> gm2calc_InvalidInput and nothing is written; the struct conversions are called with the caller's structs"""
+    from gm2v.interp import Cell
+    E = ctx.w.enumerators
+    want = {'EInvalidInput': E['gm2calc_InvalidInput'], 'EPhysicalProblem': E['gm2calc_PhysicalProblem'], 'ESetupError': E['gm2calc_UnknownError'],
+            'std::bad_alloc': E['gm2calc_UnknownError'], None: E['gm2calc_NoError']}
+    for fn, bcls in (('gm2calc_thdm_new_with_gauge_basis', 'Gauge_basis'), ('gm2calc_thdm_new_with_mass_basis', 'Mass_basis')):
+        fd = [f for f in ctx.w.find(fn, TC) if f.extern_c][0]
+        for where in ('constructor', 'convert_to_basis'):
+            for exc, code in want.items():
+                fresh = Obj('THDM', {'tag': 'fresh'})
+                got = {}
+                def thrower(i, a, t, exc=exc):
+                    raise Thrown(exc, 'ghost')
+                def ctor(i, a, t):
+                    got['ctor_args'] = [x.cls if isinstance(x, Obj) else x for x in a]
+                    if isinstance(t, Obj):
+                        t.f['tag'] = 'fresh'       # `new T(args)`: the constructor runs on the newly allocated object
+                    return fresh
+                stubs = {'convert_to_config': lambda i, a, t: Obj('Config', {}), 'convert_to_basis': lambda i, a, t: Obj(bcls, {}), 'convert_to_SM': lambda i, a, t: Obj('SM', {}),
+                         'THDM::THDM': ctor}
+                if exc is not None:
+                    stubs['THDM::THDM' if where == 'constructor' else 'convert_to_basis'] = thrower
+                elif where != 'constructor':
+                    continue
+                it = Interp(ctx.w, mode='sym', stubs=stubs)
+                handle = Cell('STALE')
+                tag = '%s.%s_throws_%s' % (fn, where, exc) if exc else '%s.success' % fn
+                try:
+                    ps = it.run_paths(lambda: (setattr(handle, 'v', 'STALE'), it.invoke(fd, [handle, Obj('gm2calc_THDM_%s' % bcls.lower(), {}), Obj('gm2calc_SM', {}), Obj('gm2calc_THDM_config', {})], None))[1])
+                except Thrown as t:
+                    ctx.record(tag, FAILED, 'B', 0, 'exception %s escapes' % t.cls)
+                    continue
+                ok = len(ps) == 1 and ps[0][2] is None and ps[0][1] == code
+                if exc is None:
+                    isnew = isinstance(handle.v, Obj) and handle.v.cls == 'THDM' and handle.v.f.get('tag') == 'fresh'
+                    ok = ok and isnew and got.get('ctor_args') == [bcls, 'SM', 'Config']
+                    det = 'returned %s, *model is %s, constructor called with %s' % (ps[0][1] if ps else None, 'the new object' if isnew else repr(handle.v), got.get('ctor_args'))
+                else:
+                    ok = ok and (handle.v == 0 or handle.v is None) and not isinstance(handle.v, str)
+                    det = 'returned %s, *model == %r afterwards (previous value: a stale non-null handle)' % (ps[0][1] if ps else None, handle.v)
+                ctx.record(tag, PROVED if ok else FAILED, 'B', 0, det + ' (expected code %s)' % code, model=None if ok else {'_history': 'handle variable non-null before the call; constructor throws %s' % exc})
+        # null out-parameter
+        it = Interp(ctx.w, mode='sym', stubs={})
+        try:
+            ps = it.run_paths(lambda: it.invoke(fd, [0, Obj('x', {}), Obj('gm2calc_SM', {}), Obj('gm2calc_THDM_config', {})], None))
+            ok = len(ps) == 1 and ps[0][2] is None and ps[0][1] == E['gm2calc_InvalidInput']
+            ctx.record(fn + '.null_out_parameter', PROVED if ok else FAILED, 'B', 0, 'returned %s' % (ps[0][1] if ps else None))
+        except Exception as e_:
+            ctx.record(fn + '.null_out_parameter', FAILED, 'B', 0, 'model == 0 is dereferenced or an exception escapes: %s' % e_)
